@@ -164,8 +164,40 @@ def corruptions(src, rng, n):
     return out
 
 
+VALID_EXOTIC = [
+    # valid shaders whose output must be the same with validation off / on (validation only gates)
+    '@group(0) @binding(0) var tex: texture_2d<f32>;\n@group(0) @binding(1) var smp: sampler;\n@group(0) @binding(2) var<storage, read_write> buf: array<u32, 4>;\n'
+    '@fragment fn f() { _ = tex; _ = smp; }\n@compute @workgroup_size(1) fn c() { let p = &buf; _ = tex; }\n',
+    '@group(0) @binding(0) var<uniform> u: vec4<f32>;\nfn h() -> f32 { return u.x; }\n@vertex fn v() -> @builtin(position) vec4<f32> { return vec4<f32>(h()); }\n'
+    '@fragment fn f() -> @location(0) vec4<f32> { return vec4<f32>(0.0); }\n',
+    'var<push_constant> pc: vec4<f32>;\n@group(0) @binding(0) var<storage, read_write> a: array<atomic<u32>, 2>;\n'
+    '@compute @workgroup_size(2, 3) fn c() { atomicAdd(&a[0], 1u); let n = arrayLength(&a2); }\n@group(0) @binding(1) var<storage, read> a2: array<f32>;\n',
+    'override k: u32 = 2u;\nstruct S { a: f32, b: vec3<f32> }\n@group(0) @binding(0) var<uniform> s: S;\nconst C: f32 = 1.5;\n'
+    '@fragment fn f() -> @location(0) vec4<f32> { var x = 0.0; for (var i = 0u; i < k; i++) { x += s.a; } return vec4<f32>(x * C); }\n',
+]
+
+
 def native(ctx, src):
     det = {'checked': 0, 'first': None}
+    import glob as _glob
+    valid = VALID_EXOTIC + [open(f).read() for f in sorted(_glob.glob('/repo/wgsl_to_wgpu/src/data/**/*.wgsl', recursive=True))]
+    for s_ in valid:
+        base = {'derive_encase_host_shareable': True}
+        r0 = ctx.S.oracle.gen(s_, base)
+        if 'ok' not in r0:
+            continue              # not an input the generator accepts at all
+        for v in (True, 3, 0):
+            r1 = ctx.S.oracle.gen(s_, dict(base, validate=v))
+            det['checked'] += 1
+            # a capability-restricted validator may reject; an accepting one must not change the text
+            if 'ok' in r0 and 'ok' in r1 and r0['ok'] != r1['ok']:
+                if det['first'] is None:
+                    det['first'] = {'wgsl': s_, 'options': {'validate': v}, 'real': 'output differs between validation off and on'}
+            elif 'panic' in r1 or 'panic' in r0:
+                if det['first'] is None and 'Runtime-sized' not in str(r0) + str(r1):
+                    det['first'] = {'wgsl': s_, 'options': {'validate': v}, 'real': str(r1)[:200]}
+            else:
+                ctx.replayed_ok += 1
     for s in corruptions(src, ctx.rng, 20 if ctx.tier == 'quick' else 200):
         for opts in ({}, {'validate': True}, {'validate': 3}):
             r = ctx.S.oracle.emit(s, opts)
@@ -190,5 +222,13 @@ def native(ctx, src):
     return det['first'] is not None, det
 
 
+
+
+def native_fallback(ctx):
+    src = open(FIXTURE).read()
+    rep, det = native(ctx, src)
+    if rep:
+        ctx.report('C17/native-corpus', f'real build: {det.get("first")}', det, True, det)
+
 if __name__ == '__main__':
-    sys.exit(main('C17', run))
+    sys.exit(main('C17', run, lambda ctx: native_fallback(ctx)))
